@@ -260,6 +260,132 @@ fn send(
     }
 }
 
+/// A small versioned API (endpoints at the root path and below it, different generations of one
+/// operation): the document generated for version v must tell the truth about the server at v.
+fn versioned_slice(ctx: &Ctx, cn: &Cn) -> Value {
+    use dropshot::{ApiEndpoint, ApiEndpointVersions, HttpError, HttpResponseCreated, HttpResponseOk, Path, RequestContext};
+    use schemars::JsonSchema;
+    use serde::{Deserialize, Serialize};
+    #[derive(Serialize, JsonSchema)]
+    struct V1 {
+        name: String,
+    }
+    #[derive(Serialize, JsonSchema)]
+    struct V2 {
+        id: u32,
+        labels: Vec<String>,
+    }
+    #[derive(Deserialize, JsonSchema)]
+    struct IdP {
+        #[allow(dead_code)]
+        id: u32,
+    }
+    async fn root_v1(_r: RequestContext<()>) -> Result<HttpResponseOk<V1>, HttpError> {
+        Ok(HttpResponseOk(V1 { name: "one".into() }))
+    }
+    async fn root_v2(_r: RequestContext<()>) -> Result<HttpResponseOk<V2>, HttpError> {
+        Ok(HttpResponseOk(V2 { id: 2, labels: vec!["l".into()] }))
+    }
+    async fn root_put(_r: RequestContext<()>) -> Result<HttpResponseCreated<V2>, HttpError> {
+        Ok(HttpResponseCreated(V2 { id: 3, labels: vec![] }))
+    }
+    async fn item_v1(_r: RequestContext<()>, _p: Path<IdP>) -> Result<HttpResponseOk<V1>, HttpError> {
+        Ok(HttpResponseOk(V1 { name: "item".into() }))
+    }
+    async fn item_v2(_r: RequestContext<()>, _p: Path<IdP>) -> Result<HttpResponseOk<V2>, HttpError> {
+        Ok(HttpResponseOk(V2 { id: 9, labels: vec![] }))
+    }
+    let v = |s: &str| semver::Version::parse(s).unwrap();
+    let ct = "application/json";
+    // both registration orders of the two generations
+    let mut requests = 0u64;
+    for newest_first in [false, true] {
+        let mk = || {
+            let mut api = ApiDescription::<()>::new();
+            let mut regs: Vec<Box<dyn FnOnce(&mut ApiDescription<()>)>> = vec![
+                Box::new(|a| a.register(ApiEndpoint::new("root_v1".to_string(), root_v1, http::Method::GET, ct, "/", ApiEndpointVersions::until(v("2.0.0")))).unwrap()),
+                Box::new(|a| a.register(ApiEndpoint::new("item_v1".to_string(), item_v1, http::Method::GET, ct, "/item/{id}", ApiEndpointVersions::until(v("2.0.0")))).unwrap()),
+                Box::new(|a| a.register(ApiEndpoint::new("root_v2".to_string(), root_v2, http::Method::GET, ct, "/", ApiEndpointVersions::from(v("2.0.0")))).unwrap()),
+                Box::new(|a| a.register(ApiEndpoint::new("item_v2".to_string(), item_v2, http::Method::GET, ct, "/item/{id}", ApiEndpointVersions::from(v("2.0.0")))).unwrap()),
+                Box::new(|a| a.register(ApiEndpoint::new("root_put".to_string(), root_put, http::Method::PUT, ct, "/", ApiEndpointVersions::from(v("3.0.0")))).unwrap()),
+            ];
+            if newest_first {
+                regs.reverse();
+            }
+            for r in regs {
+                r(&mut api);
+            }
+            api
+        };
+        let srv = LiveServer::start(mk(), (), ServerOpts { version_policy: Some(vh::slices::versioned("9.0.0")), ..Default::default() }).unwrap_or_else(|e| machinery_failure(&e));
+        let mut ka = KeepAlive::new(srv.addr);
+        for ver in ["1.0.0", "1.9.9", "2.0.0-rc.1", "2.0.0", "2.5.0", "3.0.0", "4.0.0"] {
+            let doc = mk().openapi("zoo", v(ver)).json().unwrap_or(Value::Null);
+            let d = Doc { root: &doc, defs_pointer: "/components/schemas" };
+            let val = Validator { depth_limit: 40 };
+            // every documented operation is served at this version with the documented response
+            let mut documented: Vec<(String, String)> = vec![];
+            if let Some(paths) = doc["paths"].as_object() {
+                for (path, ops) in paths {
+                    for (method, op) in ops.as_object().cloned().unwrap_or_default() {
+                        documented.push((path.clone(), method.to_uppercase()));
+                        requests += 1;
+                        cn.requests.fetch_add(1, Ordering::Relaxed);
+                        let concrete = path.replace("{id}", "7");
+                        let req = request(&method.to_uppercase(), &concrete, &format!("{}: {ver}\r\n", vh::slices::VERSION_HEADER), b"");
+                        let r = ka.roundtrip(&req, false, T);
+                        let mut problems: Vec<String> = vec![];
+                        match &r {
+                            ReadOutcome::Resp(resp) => {
+                                let dr = resolve(&doc, &op["responses"][resp.status.to_string()]);
+                                if resp.status >= 400 {
+                                    problems.push("documented operation refused at the document's version".into());
+                                } else if dr.is_null() {
+                                    problems.push("status code not documented".into());
+                                } else {
+                                    let schema = &dr["content"]["application/json"]["schema"];
+                                    match resp.json() {
+                                        Some(b) if schema.is_null() || val.valid(&d, schema, &b) => {}
+                                        _ => problems.push("body not valid against the schema documented for this version".into()),
+                                    }
+                                }
+                            }
+                            other => problems.push(format!("no response: {other:?}")),
+                        }
+                        if !problems.is_empty() {
+                            ctx.report(Violation {
+                                sig: json!({"kind":"versioned_document_vs_server","problems": problems, "root_path": path == "/"}),
+                                case: json!({"kind":"program","zoo":"c07","item":"versioned_slice","version": ver, "operation": format!("{} {path}", method.to_uppercase()), "newest_registered_first": newest_first}),
+                                expected: json!({"documented": op["operationId"]}),
+                                observed: match &r { ReadOutcome::Resp(x) => x.to_json(), o => json!(format!("{o:?}")) },
+                            });
+                        }
+                    }
+                }
+            }
+            // and nothing else is: the other (method, path) pairs of the API answer 404/405 at this version
+            for (path, method) in [("/", "GET"), ("/", "PUT"), ("/item/{id}", "GET")] {
+                if documented.iter().any(|(p, m)| p == path && m == method) {
+                    continue;
+                }
+                requests += 1;
+                let req = request(method, &path.replace("{id}", "7"), &format!("{}: {ver}\r\n", vh::slices::VERSION_HEADER), b"");
+                if let ReadOutcome::Resp(resp) = ka.roundtrip(&req, false, T) {
+                    if resp.status < 400 {
+                        ctx.report(Violation {
+                            sig: json!({"kind":"versioned_document_vs_server","problems": ["served but not documented at this version"], "root_path": path == "/"}),
+                            case: json!({"kind":"program","zoo":"c07","item":"versioned_slice","version": ver, "operation": format!("{method} {path}"), "newest_registered_first": newest_first}),
+                            expected: json!("404/405"),
+                            observed: resp.to_json(),
+                        });
+                    }
+                }
+            }
+        }
+    }
+    json!({"requests": requests, "rule": "5 endpoints (two generations of GET / and GET /item/{id}, PUT / from 3.0.0) in both registration orders; for 7 versions: every operation in the document of v is served at v with a documented status and a body valid for v's schema, and no other operation of the API is served at v"})
+}
+
 fn main() {
     let args = parse_args();
     quiet_panics();
@@ -417,7 +543,9 @@ fn main() {
             }
         }
     });
+    let versioned = if only.is_none() || only.as_deref() == Some("versioned_slice") { versioned_slice(&ctx, &cn) } else { json!(null) };
     let cov = json!({
+        "versioned_slice": versioned,
         "evaluations": cn.requests.load(Ordering::Relaxed),
         "distinct_nontrivial": cn.success.load(Ordering::Relaxed),
         "programs": eps.len(),
